@@ -327,7 +327,7 @@ def plan(tier, seed):
 def run_shard(shard, tier, seed, rec):
     H.install_work_guard()
     i = shard["i"]
-    n = {"quick": 40, "thorough": 1300}[tier]
+    n = {"quick": 100, "thorough": 1300}[tier]
     cls_name = "IH5Record" if i % 2 == 0 else "IH5MFRecord"
     strat = histories(25 if tier == "quick" else 60).map(lambda h: dict(history=h, cls=cls_name))
     hyp.search(strat, lambda c: run_case(c, rec), rec, seed=seed * 1000 + i, max_examples=n,
